@@ -11,10 +11,15 @@ use std::time::Instant;
 
 /// child mode: exactly what server/src/main.rs does, plus writing the bound address to a file
 pub fn serve_main(certs_dir: &str, addr_file: &str) {
+    serve_main_at(certs_dir, addr_file, "127.0.0.1:0")
+}
+
+pub fn serve_main_at(certs_dir: &str, addr_file: &str, bind: &str) {
     let certs = Certs { dir: PathBuf::from(certs_dir) };
+    let bind = bind.to_string();
     let rt = tokio::runtime::Builder::new_multi_thread().enable_all().build().unwrap();
     rt.block_on(async move {
-        let args = server_args(&certs, "127.0.0.1:0", 15000);
+        let args = server_args(&certs, &bind, 15000);
         let server = match Server::try_from(args) {
             Ok(s) => s,
             Err(e) => {
